@@ -35,15 +35,23 @@ def run(chk):
     chk.proofs(extra_targets=["Model/SearchRun.vo"])
     binp = vf.build_harness("c01")
     n = 1000 if chk.tier == "quick" else 12000
-    # corpus cases (shrunk witnesses of earlier findings / mutations) are replayed first
+    # corpus cases (witnesses of earlier findings / of the mutations) are replayed first, in one batch
     if not chk.replay:
+        cases = []
         for f in sorted(glob.glob(os.path.join(vf.ROOT, "corpus", "C01", "*.json"))):
-            name = os.path.basename(f)[:-5]
-            rc = vf.run_stream(binp, "walk", 1, chk.seed, os.path.join(chk.outdir, "corpus_" + name), shards=1, replay=f)
-            rc.name = "walk"
+            c = json.load(open(f))["case"]
+            c["corpus"] = os.path.basename(f)[:-5]
+            cases.append(c)
+        if cases:
+            cdir = os.path.join(chk.outdir, "corpus")
+            os.makedirs(cdir, exist_ok=True)
+            cf_ = os.path.join(cdir, "corpus_cases.json")
+            json.dump({"cases": cases}, open(cf_, "w"))
+            rc = vf.run_stream(binp, "walk", len(cases), chk.seed, os.path.join(cdir, "run"), shards=2, replay=cf_)
             skip_ties(rc)
-            chk.coverage["streams"].setdefault("corpus", {"cases": 0, "rule": "corpus/C01/*.json replayed"})["cases"] += 1
-            vf.compare(chk, rc, classify=classify, binpath=binp, stream_label="corpus:" + name)
+            chk.coverage["streams"]["corpus"] = {"cases": len(cases), "rule": "corpus/C01/*.json replayed (full payloads)",
+                                                 "hist": rc.stats.get("hist", {}), "distinct_nontrivial": 0}
+            vf.compare(chk, rc, classify=classify, binpath=binp, stream_label="corpus")
     r = vf.run_stream(binp, "walk", n, chk.seed, os.path.join(chk.outdir, "walk"), replay=chk.replay)
     nt = skip_ties(r)
     r.stats.setdefault("hist", {})["model_TIE_skipped"] = nt
